@@ -13,6 +13,9 @@ mod c08;
 mod c14;
 mod c13;
 mod c02;
+mod c11;
+mod c12;
+mod c19;
 // MODULES-END
 
 fn dump_file(path: &str) -> String {
@@ -50,6 +53,9 @@ fn main() {
         || c14::dispatch(op, &rest)
         || c13::dispatch(op, &rest)
         || c02::dispatch(op, &rest)
+        || c11::dispatch(op, &rest)
+        || c12::dispatch(op, &rest)
+        || c19::dispatch(op, &rest)
         // DISPATCH-END
         ;
     if !handled {
